@@ -2,6 +2,7 @@
 """lib/mk.py <targets...>: regenerate coq/_CoqProject + Makefile when the file list changed and make the targets"""
 import importlib.machinery, importlib.util, sys
 l = importlib.machinery.SourceFileLoader('check', '/verif/check'); spec = importlib.util.spec_from_loader('check', l); m = importlib.util.module_from_spec(spec); l.exec_module(m)
-m.coq_makefile()
-ok, out = m.coq_build(sys.argv[1:], timeout=3000)
+with m.Lock():
+    m.coq_makefile()
+    ok, out = m.coq_build(sys.argv[1:], timeout=3000)
 print(out[-3000:]); sys.exit(0 if ok else 1)
